@@ -124,7 +124,10 @@ def nontrivial(p):
 
 def pool(decoded):
     plain = decoded.replace('\\', '')
-    names = {plain, decoded, plain[:1], plain[1:], 'x41', 'A', 'a', '\\', '/', 'a/b'}
+    names = {plain, decoded, plain[:1], plain[1:], 'x41', 'A', 'a', '\\', '/', 'a/b', 'b', 'ab', 'a,c', '4', '3', 'c'}
+    for sep in '|,':
+        for piece in decoded.split(sep):
+            names.add(piece.replace('\\', '').strip('{}()!@'))
     for c in set(plain):
         names.add(c)
     names.discard('')
@@ -137,12 +140,19 @@ def call(mode, kind, text, name, fl):
     return G.translate(text, flags=fl) if kind == 't' else G.globmatch(name, text, flags=fl)
 
 
-def check(p, is_bytes, mode, win, out, stream):
-    """p is str; for bytes runs it is encoded latin-1 (only generated when encodable)."""
+EXTRA_FLAGS = ['', 'SPLIT', 'BRACE', 'EXTMATCH', 'NEGATE', 'SPLIT|BRACE', 'EXTMATCH|SPLIT', 'DOTMATCH', 'NEGATE|MINUSNEGATE', 'IGNORECASE']
+
+
+def check(p, is_bytes, mode, win, out, stream, extra=''):
+    """p is str; for bytes runs it is encoded latin-1 (only generated when encodable).
+    extra: further feature flags - a decoded character that is a metacharacter of one of them must act as one."""
     mod = F if mode == 'fn' else G
     base = (mod.FORCEWIN if win else mod.FORCEUNIX)
+    for fname in [x for x in extra.split('|') if x]:
+        base |= getattr(mod, fname)
     enc = (lambda s: s.encode('latin-1')) if is_bytes else (lambda s: s)
-    case = {'pattern': p, 'hex': p.encode('utf-8', 'surrogatepass').hex(), 'bytes': is_bytes, 'mode': mode, 'win': win, 'stream': stream}
+    case = {'pattern': p, 'hex': p.encode('utf-8', 'surrogatepass').hex(), 'bytes': is_bytes, 'mode': mode, 'win': win, 'stream': stream,
+            'extra': extra}
     try:
         want = decode(p, is_bytes)
         expect = 'ok'
@@ -185,8 +195,12 @@ def check(p, is_bytes, mode, win, out, stream):
                         b = call(mode, 'm', enc(want), nmx, base)
                         out.evaluations += 1
                         if bool(a) != bool(b):
-                            out.violation(dict(case, decoded=want, name=nm, impl=bool(a), want=bool(b), problem='RAWCHARS differs from decoded pattern'),
-                                          size=len(p), bucket=('diff', is_bytes, mode, win))
+                            c = dict(case, decoded=want, name=nm, impl=bool(a), want=bool(b), problem='RAWCHARS differs from decoded pattern')
+                            if 'K28' in ARMED and win and mode == 'fn' and '\\/' in want:
+                                # under Windows rules in fnmatch mode a written `\/` is normalised to TWO escaped backslashes
+                                out.known_hit('K28', c)
+                                return
+                            out.violation(c, size=len(p), bucket=('diff', is_bytes, mode, win))
                             return
                     out.stats['regex_text_differs_but_behaviour_equal'] += 1
                 else:
@@ -255,7 +269,12 @@ def shards(tier, seed, scale=1.0):
     return out
 
 
+ARMED = set()
+
+
 def run_shard(desc):
+    ARMED.clear()
+    ARMED.update(desc.get('armed', []))
     k = desc['kind']
     if k == 'enum':
         return run_enum(desc)
@@ -284,7 +303,7 @@ def run_enum(desc):
             is_bytes = idx % 2 == 0
             mode = 'gl' if (idx // 2) % 2 else 'fn'
             win = (idx // 4) % 4 == 0
-            check(p, is_bytes, mode, win, out, 'enum')
+            check(p, is_bytes, mode, win, out, 'enum', extra=EXTRA_FLAGS[(idx // 16) % len(EXTRA_FLAGS)])
             if idx % 3 == 0:
                 check_no_rawchars(p, is_bytes, mode, out)
             if idx % 9001 == s:
@@ -295,6 +314,7 @@ def run_enum(desc):
 PIECES = ['\\', '\\\\', '\\x', '\\x4', '\\x41', '\\x2a', '\\x5c', '\\x2f', '\\u', '\\u00', '\\u0041', '\\u002A', '\\U', '\\U0000004',
           '\\U00000041', '\\U0001F600', '\\N', '\\N{', '\\N{}', '\\N{DIGIT ONE}', '\\N{LATIN SMALL LETTER A}', '\\N{NO SUCH NAME}',
           '\\N{ASTERISK}', '\\a', '\\b', '\\f', '\\n', '\\r', '\\t', '\\v', '\\0', '\\7', '\\52', '\\101', '\\1010', '\\377', '\\400', '\\8',
+          '\\x7c', '\\174', '\\x7b', '\\x7d', '\\x2c', '\\x21', '\\x28', '\\x29', '\\x2d', '\\N{VERTICAL LINE}', '\\x40', ',',
           '\\/', '/', '*', '?', '[', ']', '(', ')', '@(', '|', '{', '}', 'a', 'A', '1', '4', '.', '-', '!', 'x', 'u', 'N', '\\c', '\\.', '\\*']
 
 
@@ -305,15 +325,15 @@ def run_hyp(desc):
     @seed(desc['seed'])
     @util.hyp_settings(desc['n'], shrink=False)
     @given(st.lists(st.sampled_from(PIECES), min_size=1, max_size=8).map(''.join), st.booleans(), st.sampled_from(['fn', 'gl']), st.booleans(),
-           st.booleans())
-    def test(p, is_bytes, mode, win, noraw):
+           st.booleans(), st.sampled_from(EXTRA_FLAGS))
+    def test(p, is_bytes, mode, win, noraw, extra):
         if len(p) > 40:
             return
         out.stats['hyp_cases'] += 1
         if noraw:
             check_no_rawchars(p, is_bytes, mode, out)
         else:
-            check(p, is_bytes, mode, win, out, 'hyp')
+            check(p, is_bytes, mode, win, out, 'hyp', extra=extra)
         if out.stats['hyp_cases'] % 97 == 1:
             out.sample({'pattern': p, 'bytes': is_bytes, 'mode': mode, 'win': win, 'stream': 'hyp'})
     test()
@@ -349,5 +369,5 @@ def replay(case):
     if case.get('rawchars') is False:
         check_no_rawchars(case['pattern'], case['bytes'], case['mode'], o)
     else:
-        check(case['pattern'], case['bytes'], case['mode'], case['win'], o, 'replay')
+        check(case['pattern'], case['bytes'], case['mode'], case['win'], o, 'replay', extra=case.get('extra', ''))
     return (not o.violations), [v[2].get('problem') for v in o.violations]
